@@ -123,6 +123,36 @@ func verifYield(site int) {
 var verifPoisonDoc = []byte(`{"\u0000verif-poison-1":{"x":[1,2,{"y":null}]},"verif-poison-2":[true,"s"],"verif-poison-3":1e999}`)
 var verifPoisonBad = []byte(`[[[[[[{"a":[1,2,{"b":tru`)
 
+// verifPoisonBads: rejected or truncated texts that leave the scanner in as
+// many different places as a previous user of the pooled state could have
+// left it: inside a literal, inside a \u escape after 1, 2 and 3 digits,
+// after a backslash, inside a number, after a comma, after a key, deep in
+// nesting, at an invalid byte. One of them is used per poisoning, in rotation.
+var verifPoisonBads = [][]byte{
+	verifPoisonBad,
+	[]byte(`{"k":"\u1`),
+	[]byte(`["\u12`),
+	[]byte(`"\u12x4"`),
+	[]byte(`{"a":"\u123`),
+	[]byte(`["abc\`),
+	[]byte(`[-`),
+	[]byte(`{"a":1e`),
+	[]byte(`[1,`),
+	[]byte(`{"a"`),
+	[]byte(`{"a":1,}`),
+	[]byte("[\"a\x01"),
+	[]byte(`[[[[[[[[[[[[[[[[[[[[[[[[[[[[[[[[`),
+	[]byte(`{"a":nul`),
+	[]byte(`[1.`),
+	[]byte(`[0`),
+}
+
+var verifPoisonCtr atomic.Uint32
+
+func verifNextPoisonBad() []byte {
+	return verifPoisonBads[int(verifPoisonCtr.Add(1))%len(verifPoisonBads)]
+}
+
 func verifAcquireDec(d *decodeState) {
 	VerifPool.AcqDec.Add(1)
 	verifAcquire(d)
@@ -147,7 +177,7 @@ func verifReleaseDec(d *decodeState) {
 			d.init(verifPoisonDoc)
 			_ = d.unmarshal(&m)
 			// ... followed by a failed one, as a rejected Unmarshal leaves it
-			_ = checkValid(verifPoisonBad, &d.scan)
+			_ = checkValid(verifNextPoisonBad(), &d.scan)
 			d.savedError = &UnmarshalTypeError{Value: "verif-poison"}
 			d.errorContext = &errorContext{FieldStack: []string{"verif-poison"}}
 		}()
@@ -195,6 +225,6 @@ func verifReleaseScan(s *scanner) {
 		*s = scanner{}
 	case VerifModePoison:
 		VerifPool.Poisoned.Add(1)
-		_ = checkValid(verifPoisonBad, s)
+		_ = checkValid(verifNextPoisonBad(), s)
 	}
 }
